@@ -13,12 +13,12 @@ from fractions import Fraction
 import core
 
 LEVEL = "proof"
-EXTRA_TARGETS = ["model/SizingTie.vo", "model/SizingConcTie.vo"]
+EXTRA_TARGETS = ["model/SizingTie.vo", "model/SizingConcTie.vo", "model/SizingRouteTie.vo"]
 MODES = ["AUTO", "FIT", "FIT_TO_WIDTH", "ORIGINAL"]
 FAMS = {"block": "Text", "kitty": "Graphics", "iterm2": "Graphics"}
 HEADER = (
     "From Coq Require Import List ZArith PrimFloat.\nImport ListNotations.\n"
-    "From TI Require Import lib.FArith lib.FPrim model.Sizing model.SizingTie model.SizingConc model.SizingConcTie.\n"
+    "From TI Require Import lib.FArith lib.FPrim model.Sizing model.SizingTie model.SizingConc model.SizingConcTie model.SizingRoute model.SizingRouteTie.\n"
     "Open Scope Z_scope.\n"
 )
 BIG = 2 ** 30 - 1
@@ -232,6 +232,69 @@ def gen_h(rng, maxlen=8):
     return {"kind": "h", "fam": fam, "ow": ow, "oh": oh, "term": term0, "cell": list(cell) if cell else None, "ops": ops}
 
 
+# ---- creation of the image: construction route x form of the size arguments (round 8)
+ROUTES = {"ctor": "RCtor", "file": "RFromFile", "url": "RFromUrl"}
+
+
+def arg_forms(rng):
+    """every form the keyword arguments width / height can take: a key that is absent is not passed"""
+    n, m = rng.randint(1, 120), rng.randint(1, 60)
+    mode, mode2 = rng.choice(MODES), rng.choice(MODES)
+    return [{}, {"width": None, "height": None}, {"width": None}, {"height": None},
+            {"width": n}, {"height": m}, {"width": n, "height": None}, {"width": None, "height": m},
+            {"width": n, "height": m}, {"width": mode}, {"height": mode}, {"width": mode, "height": None},
+            {"width": None, "height": mode}, {"width": "FIT"}, {"width": 0}, {"height": -1}, {"width": "bad"},
+            {"height": "bad2"}, {"width": mode, "height": m}, {"width": mode, "height": mode2}]
+
+
+def form_name(args):
+    def one(k):
+        if k not in args:
+            return "-"
+        v = args[k]
+        return "None" if v is None else ("int" if isinstance(v, int) and v > 0 else ("Size" if v in MODES else "invalid"))
+    return "w=" + one("width") + ",h=" + one("height")
+
+
+def env_history(rng, n):
+    """resizes, cell-ratio changes and renders (reads of size / rendered_size follow every operation)"""
+    ops = []
+    for _ in range(n):
+        k = rng.choices(["render", "resize", "ratio"], [3, 4, 2])[0]
+        if k == "render":
+            ops.append(["render", rng.random() < 0.15, rng.choice(["str", "str", "format"])])
+        elif k == "resize":
+            ops.append(["resize", rng.randint(1, 250), rng.randint(1, 90), rng.choice([None, (10, 20), (9, 19), (7, 15), (12, 25)])])
+        else:
+            r = rng.random()
+            ops.append(["ratio", "FIXED"] if r < 0.2 else (["ratio", "DYNAMIC"] if r < 0.4 else ["ratio", pick_ratio(rng, None) or (0.5).hex()]))
+    return ops
+
+
+def gen_r(rng, route=None, args=None, fam=None):
+    c = gen_h(rng, 6)
+    if rng.random() < 0.7:  # the size setting of the creation lives through the whole history
+        c["ops"] = env_history(rng, rng.randint(1, 7))
+    else:
+        c["ops"] = env_history(rng, rng.randint(1, 3)) + c["ops"]
+    c["fam"] = fam or c["fam"]
+    c["ow"], c["oh"] = rng.randint(1, 256), rng.randint(1, 256)  # a real PNG is written
+    c["route"] = route or rng.choice(list(ROUTES))
+    c["args"] = args if args is not None else rng.choice(arg_forms(rng))
+    return c
+
+
+def route_cases(rng, quick):
+    """all routes x all argument forms (both style families over the sweep), then random ones"""
+    cs = []
+    k = 0
+    for route in ROUTES:
+        for args in arg_forms(rng):
+            cs.append(gen_r(rng, route, args, fam=["block", "kitty", "block", "iterm2"][k % 4]))
+            k += 1
+    return cs + [gen_r(rng) for _ in range(50 if quick else 4000)]
+
+
 # ---- concurrent sections
 def interleavings(a, b):
     """every order of `a` grants to thread 0 and `b` grants to thread 1"""
@@ -407,6 +470,17 @@ def hcase_term(c, trace):
             f"h_obs := {core.coq_list(trace, ob)} |}}")
 
 
+def rcase_term(c, r):
+    def kw(k):
+        a = c.get("args") or {}
+        return f"(Some {dim_term(a[k])})" if k in a else "None"
+    t = r["init"]
+    init = (f"{{| ho_outcome := {core.z(t['c'])}; ho_size := {sizeval_term(t['size'])}; ho_rs := {zpair(t['rs'])}; "
+            f"ho_rw := {core.z(t['rw'])}; ho_rh := {core.z(t['rh'])}; ho_during := None |}}")
+    return (f"{{| rc_route := {ROUTES[c.get('route', 'ctor')]}; rc_w := {kw('width')}; rc_h := {kw('height')}; "
+            f"rc_made := {'true' if r['made'] else 'false'}; rc_init := {init}; rc_hist := {hcase_term(c, r['trace'])} |}}")
+
+
 def grant_term(g):
     if g[0] == "t":
         return f"GThread {g[1]}"
@@ -450,7 +524,7 @@ def evaluate(cases, tag="c04"):
             ct.append(ccase_term(c, r["trace"]))
             co.append(i)
         else:
-            ht.append(hcase_term(c, r["trace"]))
+            ht.append(rcase_term(c, r))
             ho.append(i)
     codes = [0] * len(cases)
     errors = []
@@ -460,7 +534,7 @@ def evaluate(cases, tag="c04"):
         for idx, code in bad:
             codes[vo[idx]] = code
     if ht:
-        bad, errs = core.coq_shards(tag + "h", HEADER, ht, "hcase", "bad_h cases", shard=120)
+        bad, errs = core.coq_shards(tag + "h", HEADER, ht, "rcase", "bad_r cases", shard=120)
         errors += errs
         for idx, code in bad:
             codes[ho[idx]] = code
@@ -481,8 +555,8 @@ def diagnose(case, impl):
         text = HEADER + f"Definition c : ccase := {ccase_term(case, impl['trace'])}.\n" \
             "Set Printing Width 100000.\nEval vm_compute in (diag_c c).\n"
     else:
-        text = HEADER + f"Definition c : hcase := {hcase_term(case, impl['trace'])}.\n" \
-            "Set Printing Width 100000.\nEval vm_compute in (diag_h c).\n"
+        text = HEADER + f"Definition c : rcase := {rcase_term(case, impl)}.\n" \
+            "Set Printing Width 100000.\nEval vm_compute in (diag_r c).\n"
     rc, out = core.coq_eval_file(f"c04diag_{core.sig(case)}", text, timeout=300)
     vals = core.parse_evals(out)
     return vals[0][:3000] if vals else out[-1500:]
@@ -493,7 +567,10 @@ def describe(c):
         return (f"{c['fam']} original={c['ow']}x{c['oh']} terminal={c['term']} cell={c['cell']} "
                 f"cell_ratio={'DYNAMIC' if c['ratio'] is None else float.fromhex(c['ratio'])} frame={c['frame']} "
                 f"width={c['calls'][4][0]} height={c['calls'][5][1]}")
-    return (f"{c['fam']} original={c['ow']}x{c['oh']} terminal={c['term']} cell={c['cell']} ops="
+    made = ""
+    if c["kind"] == "h":
+        made = f"created by {c.get('route', 'ctor')}({', '.join(f'{k}={v}' for k, v in (c.get('args') or {}).items())}) "
+    return (f"{c['fam']} {made}original={c['ow']}x{c['oh']} terminal={c['term']} cell={c['cell']} ops="
             + json.dumps(c["ops"]))
 
 
@@ -522,7 +599,7 @@ def shrink(case, tag):
         cands = []
         if cur["kind"] in ("h", "c"):
             for k in range(len(cur["ops"])):
-                if len(cur["ops"]) > 1 and (cur["kind"] == "h" or sum(o[0] == "conc" for o in cur["ops"]) > (cur["ops"][k][0] == "conc")):
+                if (len(cur["ops"]) > 1 or "route" in cur) and (cur["kind"] == "h" or sum(o[0] == "conc" for o in cur["ops"]) > (cur["ops"][k][0] == "conc")):
                     n = dict(cur)
                     n["ops"] = cur["ops"][:k] + cur["ops"][k + 1:]
                     cands.append(n)
@@ -543,6 +620,11 @@ def shrink(case, tag):
                     n = dict(cur)
                     n["ops"] = cur["ops"][:k] + [["conc", [False] * len(o[1]), o[2]]] + cur["ops"][k + 1:]
                     cands.append(n)
+        if cur["kind"] == "h" and cur.get("route", "ctor") != "ctor":
+            cands.append(dict(cur, route="ctor"))
+        if cur["kind"] == "h" and cur.get("args"):
+            for k in cur["args"]:
+                cands.append(dict(cur, args={j: v for j, v in cur["args"].items() if j != k}))
         for key in ("ow", "oh"):
             for f in (lambda x: x // 2, lambda x: x - 1, lambda x: x * 2 // 3):
                 v = f(cur[key])
@@ -585,10 +667,12 @@ def run(ctx):
     else:
         nv, nh = (1150, 330) if ctx.quick else (30000, 10000)
         cases = list(CORPUS) + list(H_CORPUS) + [gen_v(rng) for _ in range(nv)] \
-            + [gen_h(rng, 8 if i % 4 else 16) for i in range(nh)] + conc_cases(rng, ctx.quick)
+            + [gen_h(rng, 8 if i % 4 else 16) for i in range(nh)] + conc_cases(rng, ctx.quick) \
+            + route_cases(rng, ctx.quick)
     codes, errors, impl = evaluate(cases)
 
-    hist = {"kind": {}, "family": {}, "original": {}, "cell": {}, "cell_ratio": {}, "frame": {},
+    hist = {"kind": {}, "family": {}, "creation_route": {}, "creation_size_arguments": {}, "creation_result": {},
+            "original": {}, "cell": {}, "cell_ratio": {}, "frame": {},
             "history_ops": {}, "history_len": {}, "outcomes": {}, "auto_choice": {}, "fit_axis": {},
             "concurrent_sections": {"threads": {}, "size_setting_before": {}, "renders_overlapping": 0,
                                     "a_renderer_saw_the_dynamic_member": 0, "a_render_started_on_a_temporarily_fixed_size": 0,
@@ -621,6 +705,10 @@ def run(ctx):
                 distinct.add(signature(c))
         else:
             bump("history_len", min(len(c["ops"]) // 4 * 4, 16))
+            if c["kind"] == "h":
+                bump("creation_route", c.get("route", "ctor"))
+                bump("creation_size_arguments", form_name(c.get("args") or {}))
+                bump("creation_result", "exception" if not r["made"] else ("dynamic" if r["init"]["size"][0] else "fixed"))
             kinds = set()
             for op, t in zip(c["ops"], r["trace"]):
                 bump("history_ops", op[0])
@@ -654,6 +742,8 @@ def run(ctx):
                     distinct.add(signature(c))
             elif len(c["ops"]) >= 3 and kinds & {"set_size", "assign"} and kinds & {"resize", "ratio"} and "render" in kinds:
                 distinct.add(signature(c))
+            elif c.get("args") and r["made"] and kinds & {"resize", "ratio"} and "render" in kinds:
+                distinct.add(signature(c))  # created with size arguments, then the environment changes and a render
 
     mismatches, failures = [], []
     extra_searched = 0
@@ -693,7 +783,8 @@ def run(ctx):
     nv = sum(1 for c in cases if c["kind"] == "v")
     return {
         "corr_name": "Sizing.valid_size / Sizing.trace on binary64 (Coq PrimFloat) == real _valid_size / set_size / size / "
-                     "rendered_size / _renderer; oracle SizingTie.spec_ok / hspec (exact Q) on the observed values",
+                     "rendered_size / _renderer; SizingRoute.create == the real constructor / from_file / from_url; oracle SizingTie.spec_ok / "
+                     "hspec / SizingRouteTie.rspec (exact Q) on the observed values",
         "evaluations": len(cases),
         "distinct_nontrivial": len(distinct),
         "rule": "corpus + generated: (v) one environment {family block|kitty|iterm2, original size 1..2^30-1 (small, 1xN, Nx1, equal "
@@ -701,7 +792,10 @@ def run(ctx):
                 "w/h of odd cells, random, 2^+-20), absolute/relative/clamped frame} x 12 argument pairs (FIT AUTO ORIGINAL FIT_TO_WIDTH "
                 "width= height= None/None, Size as height, width+height), all intermediate pixel values < 2^50; (h) histories of "
                 "1-8 (every 4th: 1-16) operations set_size/width=/height=/size=/render(str|format, may raise)/resize/set_cell_ratio "
-                "(float, non-positive, FIXED, DYNAMIC) incl. invalid arguments.  Non-trivial v: source and frame not degenerate and "
+                "(float, non-positive, FIXED, DYNAMIC) incl. invalid arguments; every history starts with the CREATION of the image "
+                "and the reads right after it: route constructor | from_file (temporary PNG) | from_url (requests stubbed) x 20 forms "
+                "of the keyword arguments width/height (left out, None written out, int, Size member, both, invalid) -- all "
+                "3 x 20 combinations in both tiers, then random ones followed by resizes / cell-ratio changes / renders.  Non-trivial v: source and frame not degenerate and "
                 "FIT/ORIGINAL/FIT_TO_WIDTH pairwise different; h: >= 3 ops with a size op, an environment change and a render; "
                 "distinct by case hash." + (f"  Neighbourhood search around mismatches: {extra_searched} extra cases." if extra_searched else ""),
         "samples": [describe(c) for c in cases[:2] + cases[len(CORPUS):len(CORPUS) + 1]
@@ -723,7 +817,8 @@ def run(ctx):
             "CPython float = IEEE binary64 round-to-nearest-even = Coq PrimFloat (bit-exactness is checked on every case, not assumed)",
             "impl driver: stubs get_terminal_size / get_cell_size as the test-suite does; `_valid_size` is called on "
             "object.__new__ instances for sizes no PIL image could have; renders go through str()/format() with _render_image "
-            "replaced by a recorder",
+            "replaced by a recorder; from_url: the library module's name `requests` is bound to a stub (get -> status 200, the "
+            "bytes of a generated PNG) in the driver process, from_file: a PNG in a scratch directory",
         ],
         "extra": {"single_call_cases": nv, "history_cases": len(cases) - nv,
                   "valid_size_calls_compared": nv * 12},
